@@ -236,6 +236,11 @@ func (e *engine) Generate(seed uint64, idx int, tier string, avoid []harness.Fin
 	case x < 40:
 		// classes with several direct superclasses (seeded change C10-k1)
 		c.World = "lattice"
+	case x < 50:
+		c.World = "names"
+		if c.Arity == 1 {
+			c.Arity = 2
+		}
 	}
 	ntasks := 1
 	if r.Pct(60) {
@@ -644,9 +649,18 @@ type world struct {
 	insts   []string // variable names holding an instance of class i
 }
 
+// advNames: in the world "names" the four chain classes are called so that
+// the names of (c0, c1) and of (c2, c3) give the same text when written one
+// after the other: a key made of class names has to keep them apart (seeded
+// change C10-l2: a hashed cache key without a separator).
+var advNames bool
+
 func className(sfx string, i int) string {
 	if i < 0 {
 		return "t"
+	}
+	if advNames {
+		return []string{"z" + sfx, "zy" + sfx, "z" + sfx + "z", "y" + sfx}[i]
 	}
 	return fmt.Sprintf("c%d%s", i, sfx)
 }
@@ -700,6 +714,7 @@ func newWorld(arity int, wk string) *world {
 func newWorldRaw(arity int) *world { return newWorldKind(arity, "") }
 
 func newWorldKind(arity int, wk string) *world {
+	advNames = wk == "names"
 	w := &world{sfx: lispsim.Suffix(), scope: slip.NewScope(), builtin: wk == "builtin", lattice: wk == "lattice"}
 	w.gf = "gf" + w.sfx
 	var b strings.Builder
